@@ -342,6 +342,11 @@ func (r *TaskRunner) storeTaskOutput(t *task.Task) {
 }
 
 func (r *TaskRunner) execute(ctx context.Context, t *task.Task, job *executor.Job) error {
+	if job == nil {
+		// nothing to execute: the task has no commands or an empty list of variations
+		return nil
+	}
+
 	exec, err := executor.NewDefaultExecutor(job.Stdin, job.Stdout, job.Stderr)
 	if err != nil {
 		return err
